@@ -842,7 +842,7 @@ End Tokens.
 (* ------------------------------------------------------------------------- *)
 (* Part 3/4: sequences of tokens                                              *)
 Definition first_ok (c : Z) : Prop :=
-  c <> 0 /\ c <> 47 /\ c <> 37 /\ isspace c = false /\ c <> 46 /\ c <> 40.
+  c <> 0 /\ c <> 47 /\ c <> 37 /\ isspace c = false /\ c <> 46 /\ (c <> 40 /\ c <> 93).
 Definition sepw (s : str) : Prop := s <> [] /\ Forall (fun c => isspace c = true) s.
 
 Definition scalar (v : av) : Prop :=
@@ -967,13 +967,13 @@ Proof. unfold convert_to_range. rewrite Hoff. cbn [negb]. now rewrite !orb_true_
 
 Lemma print_arg_val_top_scalar v rest cols prev b :
   scalar v -> print_arg_val_top o (v :: rest) cols prev b = print_arg_val o (v :: rest) cols prev.
-Proof. destruct v; cbn [scalar]; try tauto; intros _; reflexivity. Qed.
+Proof. destruct v; cbn [scalar]; intros H; try contradiction; cbn [print_arg_val_top]; reflexivity. Qed.
 
 Lemma print_arg_val_scalar v rest cols prev :
   scalar v ->
   print_arg_val o (v :: rest) cols prev =
   match print_scalar o v cols with Some (t, w, c) => Some (t, w, c, false) | None => None end.
-Proof. destruct v; cbn [scalar]; try tauto; intros _; reflexivity. Qed.
+Proof. destruct v; cbn [scalar]; intros H; try contradiction; unfold print_arg_val; cbn [print_arg_val_f]; reflexivity. Qed.
 
 Fixpoint lang_from (pend : bool) (args : list av) (sfx : str) : Prop :=
   match args with
